@@ -22,11 +22,44 @@ def c20(c):
     c.finish()
 
 
+HTTP_MODEL = ("http", "Extract.v", ["model"], "main.ml")
+
+
+def c06(c):
+    c.coq(["http"], "C06", "HttpC")
+    c.trusted += [EXTRACT_TB,
+                  "the per-byte model represents the whole-body look-ahead of the body states by accumulation (same events, same retained bytes); "
+                  "this equivalence and the index arithmetic of resume/re-cache are tied to the code by the differential run, not proved",
+                  "Go harness cmd/httpparse (recording Processor through the public interface; overlay accessor for the retained length)"]
+    args = ["-n", n(c, 2500, 60000)]
+    if c.tier == "thorough":
+        args.append("-allcuts")
+    c.harness("httpparse", args, overlay=True, model=HTTP_MODEL, timeout=3000)
+    c.finish()
+
+
+def c08(c):
+    c.coq(["http"], "C08", "HttpC")
+    c.trusted += [EXTRACT_TB,
+                  "absence of panics and hangs in the Go code (index arithmetic, slice bounds) is NOT a theorem: the model is total by construction; "
+                  "it is covered by the differential run only (no recovered panic, no slow call on any generated input)",
+                  "Go harness cmd/httpparse"]
+    c.assumptions += ["strconv.ParseInt re-modelled for bases 10/16 with 63-bit range; tested against the original by the differential run"]
+    args = ["-n", n(c, 2500, 60000)]
+    if c.tier == "thorough":
+        args.append("-allcuts")
+    c.harness("httpparse", args, overlay=True, model=HTTP_MODEL, timeout=3000)
+    c.finish()
+
+
 MODELS = [
+    HTTP_MODEL,
     ("mempool", "Extract.v", ["mmodel"], "main.ml"),
 ]
-HARNESSES = [("mempool", False)]
+HARNESSES = [("mempool", False), ("httpparse", True)]
 
 CHECKS = {
+    "C06": c06,
+    "C08": c08,
     "C20": c20,
 }
